@@ -1,6 +1,8 @@
 #!/usr/bin/env python3
-"""Write sa/known_fns.json: the functions (normalised paths) the workspace crates have at the
-pinned tree.  sa/inline.py splices only functions that are NOT in this table into their callers.
+"""Write sa/known_fns.json - the *pin table*: the functions (normalised path, signature, callee
+fingerprint) and ADTs (variants, fields) the workspace crates have at the pinned tree.
+sa/normalise.py uses it to re-bind renamed private functions / fields / variants to the names the
+rules know, and sa/inline.py to recognise functions that did not exist at the pin (new helpers).
 Run once at the pin (and again only when the pin moves)."""
 import json, os, subprocess, sys
 
@@ -8,9 +10,17 @@ V = os.path.dirname(os.path.dirname(os.path.abspath(__file__)))
 sys.path.insert(0, os.path.join(V, "sa"))
 import facts
 from core import strip_generics
+from normalise import fn_signature, fn_fingerprint, adt_shape
 
 fx, th = facts.extract()
-fns = sorted({strip_generics(b["path"]) for f in fx.values() for b in f["bodies"] if b["kind"] in ("Fn", "AssocFn")})
+fns = {}
+adts = {}
+for crate, f in fx.items():
+    for b in f["bodies"]:
+        if b["kind"] in ("Fn", "AssocFn"):
+            fns[strip_generics(b["path"])] = {"sig": fn_signature(b), "callees": fn_fingerprint(b), "trait": bool(b.get("impl_trait") or b.get("in_trait"))}
+    for a in f["adts"]:
+        adts[strip_generics(a["path"])] = adt_shape(a)
 head = subprocess.run(["git", "-C", "/repo", "rev-parse", "HEAD"], stdout=subprocess.PIPE, text=True).stdout.strip()
-json.dump({"repo_commit": head, "functions": fns}, open(os.path.join(V, "sa", "known_fns.json"), "w"), indent=0)
-print(len(fns), "functions at", head)
+json.dump({"repo_commit": head, "functions": sorted(fns), "fn_info": fns, "adts": adts}, open(os.path.join(V, "sa", "known_fns.json"), "w"), indent=0, sort_keys=True)
+print(len(fns), "functions,", len(adts), "ADTs at", head)
